@@ -17,6 +17,15 @@ COMMON_NOTE = ("Trusted: Coq 8.16.1 kernel + vm_compute (no native_compute); std
                "of the kernels with the pre-generated Cython wrapper C; harness generators and oracles. "
                "Floating-point accuracy clauses are tested, not proved. ")
 
+REFINE_TEXT = ("Refinement to the code itself: the C source of {kernels} is translated on every run (clang AST -> "
+               "MiniC deep embedding, Gen/KernelsAst.v) and theorems {theorems} prove, for all inputs (every length, "
+               "every content, every initial buffer content{generic}), that the interpreter of the translated program "
+               "returns exactly what the model returns{extra}; the property theorems are restated on the translated "
+               "program. Translator + interpreter are compared bit-exactly with the compiled kernels on generated "
+               "arguments inside Coq on every run.")
+REFINE_TECH = (" + refinement proofs (symbolic execution of the MiniC interpreter with loop invariants) of the "
+               "regenerated translation of the C kernels to the model + sampled binary64 tie interpreter = compiled kernel")
+
 NOT_YET = "check not built yet; planned with the same technique (DESIGN.md section 5/8)"
 
 
@@ -38,10 +47,11 @@ def main():
             "evidence_file": f"/verif/evidence/{pid}.json",
             "replay_cmd_template": f"./check {pid} --replay {{path}}",
             "engine": "coq-model+correspondence",
-            "level_claimed": {"category": "proof", "text": c["text"],
+            "level_claimed": {"category": "proof",
+                              "text": c["text"] + ((" " + REFINE_TEXT.format(**c["refinement"])) if "refinement" in c else ""),
                               "design_ref": f"DESIGN.md section {c['design']}"},
             "level_note": c.get("prefix", "") + COMMON_NOTE + c["note"],
-            "technique": c["technique"],
+            "technique": c["technique"] + (REFINE_TECH if "refinement" in c else ""),
         })
     na = []
     for p in ALL:
